@@ -31,9 +31,9 @@ static void* worker_fn(void* a) {
             if (w->inside) { w->bad = true; w->badwhy = "lock() returned 0 while another thread is inside (two owners)"; }
             w->inside++;
             int extra = 0;
-            if (w->rm) for (int d = 0; d < s.depth; d++) { if (w->rm->lock(1000) != 0) { w->bad = true; w->badwhy = "the owner of a recursive_mutex could not lock it again"; } else extra++; }
+            if (w->rm) for (int d = 0; d < s.depth; d++) { if (((d + s.kind + (int)(s.hold_us & 1)) & 1 ? w->rm->try_lock() : w->rm->lock(1000)) != 0) { w->bad = true; w->badwhy = "the owner of a recursive_mutex could not lock it again"; } else extra++; }
             if (s.hold_us) photon::thread_usleep(s.hold_us); else photon::thread_yield();
-            for (int d = 0; d < extra; d++) w->rm->unlock();
+            for (int d = 0; d < extra; d++) { w->rm->unlock(); photon::thread_yield(); }   // still held (depth >= 1): nobody may get in at these yields
             w->inside--;
             if (w->m) w->m->unlock(); else w->rm->unlock();
         } else if (r != -1) { w->bad = true; w->badwhy = "lock() returned neither 0 nor -1"; }
@@ -48,7 +48,7 @@ static bool history(uint64_t seed, std::string* desc) {
     World w; if (kind == 0) w.m = &m0; else if (kind == 1) w.m = &m1; else if (kind == 2) w.m = &m2; else w.rm = &rm;
     int nw = 2 + rnd() % 4; std::vector<Worker> ws(nw); char b[96];
     snprintf(b, sizeof b, "%s workers=%d:", names[kind], nw); *desc = b;
-    for (auto& k : ws) { k.w = &w; int n = 1 + rnd() % 4; for (int i = 0; i < n; i++) { Step s; s.kind = rnd() % 5 == 0; s.timeout_us = rnd() % 3 == 0 ? 1000 + rnd() % 3000 : (uint64_t)-1; s.hold_us = rnd() % 2 ? 0 : 500 + rnd() % 2000; s.depth = rnd() % 3; k.script.push_back(s); snprintf(b, sizeof b, " %s%s", s.kind ? "try" : "lock", s.timeout_us == (uint64_t)-1 ? "" : "(t)"); *desc += b; } *desc += ";"; }
+    for (auto& k : ws) { k.w = &w; int n = 1 + rnd() % 4; for (int i = 0; i < n; i++) { Step s; s.kind = rnd() % 5 == 0; s.timeout_us = rnd() % 3 == 0 ? 1000 + rnd() % 3000 : (uint64_t)-1; s.hold_us = rnd() % 2 ? 0 : 500 + rnd() % 2000; s.depth = rnd() % 4; k.script.push_back(s); snprintf(b, sizeof b, " %s%s", s.kind ? "try" : "lock", s.timeout_us == (uint64_t)-1 ? "" : "(t)"); *desc += b; } *desc += ";"; }
     for (auto& k : ws) k.th = photon::thread_create(&worker_fn, &k);
     for (int round = 0; round < 4000 && w.done < nw; round++) {
         if (rnd() % 2) photon::thread_usleep(300); else photon::thread_yield();
